@@ -626,18 +626,22 @@ func c14R4(c *Ctx, rule string) {
 	}
 	v, ok := constInt(info, calls[0].Call.Args[1])
 	c.Check(ok && v == -3, rule, "gateway index is the constant −3", p.Pos(calls[0].Call), fn.Key(), "GetIPAtIndex(subnet, -3)", exprString(calls[0].Call.Args[1]))
-	// the subnet argument is the parsed parameter
+	// the subnet argument is the parsed parameter (followed through temporaries of an expanded helper)
 	okNet := false
-	if ue, isU := ast.Unparen(calls[0].Call.Args[0]).(*ast.StarExpr); isU {
-		if o := identObj(info, ue.X); o != nil {
-			for _, d := range varDefs(fn, o) {
-				if as, isAs := d.node.(*ast.AssignStmt); isAs && len(as.Rhs) == 1 && strings.HasPrefix(exprString(as.Rhs[0]), "net.ParseCIDR("+fn.Decl.Type.Params.List[0].Names[0].Name+")") {
-					okNet = true
-				}
+	param := fn.Decl.Type.Params.List[0].Names[0].Name
+	var netObj types.Object
+	ast.Inspect(calls[0].Call.Args[0], func(k ast.Node) bool {
+		if id, ok := k.(*ast.Ident); ok && netObj == nil {
+			if v, ok := info.ObjectOf(id).(*types.Var); ok && !v.IsField() {
+				netObj = v
 			}
 		}
+		return true
+	})
+	if netObj != nil && strings.Contains(sliceText(fn, netObj, 4), "net.ParseCIDR("+param+")") {
+		okNet = true
 	}
-	c.Check(okNet, rule, "the subnet is the parsed argument", p.Pos(calls[0].Call), fn.Key(), "_, ipNet, err := net.ParseCIDR(cidr); GetIPAtIndex(*ipNet, …)", exprString(calls[0].Call.Args[0]))
+	c.Check(okNet, rule, "the subnet is the parsed argument", p.Pos(calls[0].Call), fn.Key(), "GetIPAtIndex's subnet derives from net.ParseCIDR("+param+")", exprString(calls[0].Call.Args[0]))
 	// nil → ""
 	_, lhs := assignedFromCall(fn, calls[0].Call)
 	if len(lhs) == 1 && lhs[0] != nil {
@@ -654,20 +658,31 @@ func c14R4(c *Ctx, rule string) {
 			})
 		}
 	}
-	// a parse error returns ""
+	// a parse error returns "": every return of something else than the constant "" has err == nil
+	// of the ParseCIDR call as a fact
 	okErr := false
-	ast.Inspect(fn.Decl.Body, func(nd ast.Node) bool {
-		if is, isIf := nd.(*ast.IfStmt); isIf && exprString(is.Cond) == "err != nil" && len(is.Body.List) == 1 {
-			if r, isR := is.Body.List[0].(*ast.ReturnStmt); isR {
-				tv := info.Types[r.Results[0]]
-				if tv.Value != nil && constant.StringVal(tv.Value) == "" {
-					okErr = true
-				}
+	var perr types.Object
+	for _, cs := range p.CallsIn(fn) {
+		if cs.Callee != nil && cs.Callee.Name() == "ParseCIDR" && cs.Lit == nil {
+			if _, l := assignedFromCall(fn, cs.Call); len(l) == 3 && l[2] != nil {
+				perr = l[2]
 			}
 		}
-		return true
-	})
-	c.Check(okErr, rule, "unparsable subnet yields the empty gateway", p.Pos(fn.Decl), fn.Key(), `if err != nil { return "" }`, "not found")
+	}
+	if perr != nil {
+		okErr = true
+		for _, r := range declReturns(fn.Decl.Body) {
+			tv := info.Types[r.Results[0]]
+			if tv.Value != nil && constant.StringVal(tv.Value) == "" {
+				continue
+			}
+			o := c.RequireF(rule, "a gateway is returned only for a subnet that parsed", fn, r, perr.Name()+" == nil (ParseCIDR)", func(e *FactEngine) (*Formula, error) {
+				return e.eqAtom(objID(perr), "nil", []string{objID(perr)}), nil
+			})
+			_ = o
+		}
+	}
+	c.Check(okErr, rule, "the subnet's parse error is bound", p.Pos(fn.Decl), fn.Key(), "_, ipNet, err := net.ParseCIDR(cidr)", "no ParseCIDR call with a bound error in DeriveGatewayIP")
 	// GetIPAtIndex returns an address only when it lies inside the subnet
 	ginfo := get.Info()
 	for _, r := range declReturns(get.Decl.Body) {
